@@ -25,7 +25,11 @@ type Digest struct {
 	Guarded map[string]string
 	Skipped map[string]int // type -> occurrences
 	GTypes  map[string]int // struct types treated as mutex-guarded
-	seen    map[seenKey]string
+	// Stop: pointers to objects that are tracked as roots of their own (package-level
+	// variables, caller-supplied objects); the walk records the alias and does not
+	// descend, so that one write is reported once, at its owner.
+	Stop map[unsafe.Pointer]string
+	seen map[seenKey]string
 }
 
 type seenKey struct {
@@ -161,6 +165,10 @@ func (d *Digest) walk(p string, v reflect.Value, g bool, depth int) {
 				d.Skipped[et.String()]++
 				return
 			}
+		}
+		if owner, ok := d.Stop[v.UnsafePointer()]; ok && depth > 0 {
+			d.set(p, "=>tracked:"+owner, g)
+			return
 		}
 		k := seenKey{v.UnsafePointer(), et}
 		if first, ok := d.seen[k]; ok {
